@@ -158,17 +158,43 @@ Proof.
 Qed.
 
 (* VerifyAnyQC: the block QC itself verifies — agreeing with the high QC under Equals is never enough *)
-Theorem any_qc_sound_p c x st sd bq ag pick :
-  verify_any_qc_p c x st sd bq ag pick = Ok tt ->
+Theorem any_qc_sound_p c x st bq ag pick :
+  verify_any_qc_p c x st bq ag pick = Ok tt ->
   verify_qc_p c x st bq = Ok tt /\
   (c_aggqc c = true -> forall a, ag = Some a ->
-     exists h, pick (verify_aggqc_p c x st a) = Ok h /\ qc_equals_sd sd bq h = true).
+     exists h, pick (verify_aggqc_p c x st a) = Ok h /\ qc_view bq = qc_view h /\ qc_hash bq = qc_hash h).
 Proof.
   unfold verify_any_qc_p. destruct (c_aggqc c); [destruct ag as [a|]|]; cbn.
   - destruct (aq_sig a); [|discriminate].
     destruct (pick (verify_aggqc_p c x st a)) as [h| |] eqn:E; try discriminate.
-    destruct (qc_equals_sd sd bq h) eqn:Eq; cbn [negb]; [|discriminate].
+    destruct (qc_same_block bq h) eqn:Eq; cbn [negb]; [|discriminate].
+    unfold qc_same_block in Eq. apply andb_true_iff in Eq. destruct Eq as [E1 E2].
+    apply N.eqb_eq in E1, E2.
     intros H. split; [assumption|]. intros _ a' Ha. inversion Ha; subst. now exists h.
   - intros H. split; [assumption|]. intros _ a' Ha. discriminate.
   - intros H. split; [assumption|]. intros Hf. discriminate.
+Qed.
+
+(* the verdict of VerifyAnyQC does not depend on WHICH admissible high QC VerifyAggregateQC returned, as
+   long as the candidates certify the same block in the same view (equal-view valid QCs for one block:
+   other signer subsets, other signature bytes) *)
+Theorem any_qc_pick_irrelevant c x st bq ag h1 h2 :
+  qc_view h1 = qc_view h2 -> qc_hash h1 = qc_hash h2 ->
+  verify_any_qc_p c x st bq ag (fun _ => Ok h1) = verify_any_qc_p c x st bq ag (fun _ => Ok h2).
+Proof.
+  intros Hv Hh. unfold verify_any_qc_p, qc_same_block. now rewrite Hv, Hh.
+Qed.
+
+(* completeness of VerifyAnyQC: a proposal whose block QC verifies on its own and certifies the block and
+   view of the high QC returned for its (verifying) aggregate QC is accepted *)
+Theorem any_qc_complete_p c x st bq a h pick :
+  aq_sig a <> None ->
+  pick (verify_aggqc_p c x st a) = Ok h ->
+  qc_view bq = qc_view h -> qc_hash bq = qc_hash h ->
+  verify_qc_p c x st bq = Ok tt ->
+  verify_any_qc_p c x st bq (Some a) pick = Ok tt.
+Proof.
+  intros Hs Hp Hv Hh Hq. unfold verify_any_qc_p. destruct (c_aggqc c); [|assumption].
+  destruct (aq_sig a); [|congruence]. rewrite Hp. unfold qc_same_block.
+  now rewrite Hv, Hh, !N.eqb_refl.
 Qed.
